@@ -139,7 +139,7 @@ REGISTRY = {
         "assumptions": COMMON_ASSUMPTIONS,
     },
     "C17": {
-        "rules": [exponent.rule_linop_dtype, linalg.rule_backend_use_or_reject, linalg.rule_dense_table, linalg.rule_perm_provenance, linalg.rule_none_vs_zero, linalg.rule_return_arity, linalg.rule_adjoint_distinct],
+        "rules": [exponent.rule_linop_dtype, linalg.rule_backend_use_or_reject, linalg.rule_dense_table, linalg.rule_perm_provenance, linalg.rule_none_vs_zero, linalg.rule_return_arity, linalg.rule_adjoint_distinct, linalg.rule_arm_option_agreement],
         "explanation": (
             "static (registry evaluation + use-or-reject): decides that every registered eigen / singular-value backend accepts "
             "every setting its dispatcher builds and reads each selection-bearing option it accepts, that the dispatcher builds "
